@@ -32,7 +32,7 @@ def excluded(regions, x, y):
     return any(r.containsPoint(x, y) for r in regions)
 
 
-def judge_plugin(st0, ops, props=None):
+def judge_plugin(st0, ops, props=None, classify=True):
     """Run ops on a real plugin; returns list of violation strings for the requested properties."""
     props = set(props or ["C10", "C11", "C12", "C13", "C15"])
     out = []
@@ -133,12 +133,18 @@ def judge_plugin(st0, ops, props=None):
                     viol("C11", "step %d: no print active but @%s %s had an effect" % (idx, op[1], op[2]))
             elif k == "script":
                 was_excluding = bool(unit.state.excluding)
+                pos = unit.state.position
+                unknown_axis = any(a.current is None for a in (pos.X_AXIS, pos.Y_AXIS, pos.Z_AXIS))
                 try:
                     r = unit.handleScriptHook(None, op[1], op[2])
                 except Exception as exc:  # pylint: disable=broad-except
                     r = ("raised", type(exc).__name__)
                 should = (op[1] == "gcode" and op[2] == "afterPrintDone" and active and was_excluding)
-                if should:
+                if classify and should and unknown_axis and r == ("raised", "TypeError"):
+                    # known finding K-D20: an episode is closed while an axis position is still unknown
+                    # (no homing since the print started); its recorded replay runs on every check
+                    pass
+                elif should:
                     if not (isinstance(r, tuple) and len(r) == 2 and r[1] is None and isinstance(r[0], list) and r[0]):
                         viol("C15", "step %d: excluding at print end but the hook returned %r" % (idx, r))
                     if unit.state.excluding:
